@@ -336,9 +336,63 @@ def check_mixed(col, scratch, order):
     shutil.rmtree(base, ignore_errors=True)
 
 
+def check_partial(col, scratch, writer):
+    """some files of a dataset named directly (one part file, a glob matching a few, all of them by glob, two in another
+    order): what is exposed must describe the partitions that were loaded"""
+    import pandas as pd
+    from spatialpandas import GeoDataFrame
+    from spatialpandas.io import read_parquet_dask
+    S = "synchronous"
+    base = os.path.join(scratch, f"c12p-{os.getpid()}")
+    shutil.rmtree(base, ignore_errors=True)
+    os.makedirs(base)
+    ds = os.path.join(base, "ds.parq")
+    write_dataset(make_frame(16), ds, writer, 12)
+    args = {"one_file": os.path.join(ds, "part.1.parquet"), "glob_some": os.path.join(ds, "part.[23].parquet"),
+            "glob_all": os.path.join(ds, "part.*.parquet"), "glob_two_digit": os.path.join(ds, "part.1?.parquet"),
+            "list_other_order": [os.path.join(ds, "part.3.parquet"), os.path.join(ds, "part.0.parquet")]}
+    for tag, arg in args.items():
+        for geometry in (None, "pts"):
+            active = geometry or "polys"
+            case = {"writer": "partial:" + writer, "npartitions": 12, "multi": tag, "variant": "partial", "geometry": geometry}
+            col.count("evaluations", 3)
+            try:
+                r = read_parquet_dask(arg, geometry=geometry)
+                parts = [d.compute(scheduler=S) for d in r.to_delayed()]
+                whole = GeoDataFrame(pd.concat(parts)).set_geometry(active)
+                ext = [extent_of(p[active]) for p in parts]
+                tb = tuple(float(v) for v in r[active].total_bounds)
+                want_tb = tuple(float(v) for v in whole[active].array.total_bounds)
+                if not same(tb, want_tb):
+                    col.violation("partial.total_bounds", case, f"{tag}: total_bounds {tb} but the loaded rows extend over {want_tb}")
+                pbd = r[active].partition_bounds
+                rec = [tuple(float(v) for v in row) for row in pbd[["x0", "y0", "x1", "y1"]].values]
+                if len(rec) != len(ext) or not all(same(a, b) for a, b in zip(rec, ext)):
+                    col.violation("partial.partition_bounds", case, f"{tag}: partition_bounds {rec[:4]} ({len(rec)} rows) but the {len(ext)} loaded "
+                                  f"partitions extend over {ext[:4]}")
+                stored = getattr(r, "_partition_bounds", None) or {}
+                for c, bdf in stored.items():
+                    if len(bdf) != len(parts):
+                        col.violation("partial.stored_bounds", dict(case, column=c), f"{tag}: {len(bdf)} stored bounds rows for {len(parts)} partitions")
+                for b in ((-1.0, -1.0, 40.0, 4.5), (2.5, 0.0, 12.5, 20.0), (100.0, 100.0, 101.0, 101.0)):
+                    col.count("evaluations", 2)
+                    need = whole.cx[b[0]:b[2], b[1]:b[3]]["val"].tolist()
+                    got = r.cx[b[0]:b[2], b[1]:b[3]].compute(scheduler=S)["val"].tolist()
+                    if sorted(got) != sorted(need):
+                        col.violation("partial.cx", dict(case, bounds=list(b)), f"{tag}: cx {b} rows {sorted(got)} expected {sorted(need)}")
+                    have = read_parquet_dask(arg, geometry=geometry, bounds=b).compute(scheduler=S)["val"].tolist()
+                    if not set(need) <= set(have):
+                        col.violation("partial.pruning.lost_rows", dict(case, bounds=list(b)), f"{tag}: bounds {b}: rows {need} intersect the box, kept {have}")
+            except Exception as ex:
+                col.violation("partial.raises", case, f"{tag}: {type(ex).__name__}: {str(ex)[:250]}")
+    shutil.rmtree(base, ignore_errors=True)
+
+
 def run(ctx):
     scratch = ctx.scratch()
     units = []
+    units.append(("partial", 12, "to_parquet"))
+    units.append(("partial", 12, "pack"))
     units.append(("mixed", 3, "with_first"))
     units.append(("mixed", 3, "without_first"))
     for writer in ("to_parquet", "pack", "to_parquet_filtered"):
@@ -364,6 +418,9 @@ def run(ctx):
         if w == "mixed":
             check_mixed(col, scratch, m)
             return
+        if w == "partial":
+            check_partial(col, scratch, m)
+            return
         check_dataset(col, scratch, w, n, m, ctx.thorough, ctx.seed, variant=units[i][3] if len(units[i]) > 3 else "int")
 
     units.sort(key=lambda u: -u[1])
@@ -382,6 +439,9 @@ def replay(ctx, case):
     col = core.Collector()
     if case.get("writer") == "mixed":
         check_mixed(col, ctx.scratch(), case["multi"])
+        return col.violations
+    if str(case.get("writer", "")).startswith("partial:"):
+        check_partial(col, ctx.scratch(), case["writer"].split(":", 1)[1])
         return col.violations
     check_dataset(col, ctx.scratch(), case["writer"], case["npartitions"], case["multi"], True, 0, variant=case.get("variant", "int"))
     return col.violations
